@@ -58,3 +58,40 @@ Example C03_nonvacuous :
   gens st = 3%nat /\ calls st = 6%nat /\ callbacks st = 2%nat.
 Proof. vm_compute. auto. Qed.
 Print Assumptions C03_nonvacuous.
+
+(* ------------------------------------------------------------------------------------------------
+   THE TIE TO THE SOURCE for the stopping rules.  gen/GenLoop.v is regenerated on every run from
+   EvolutionaryAlgorithm._get_aim / _termitation_check / get_remains_calls and the constructor lines that set
+   _sign, _aim, _calls (harness/translate_loop.py).  The loop model's aim_of / terminate and the remaining-calls
+   formula are EQUAL to the generated definitions. *)
+From TF Require Import Py CodeEqLoop.
+From TFG Require Import GenLoop.
+
+Theorem C03_code_get_aim : forall (G P : Type) (self : EvolutionaryAlgorithm G P) (minimization : bool) optimal err,
+  ea_sign G P self = (if minimization then -1 else 1)%Z ->
+  abs_aim (py_EvolutionaryAlgorithm__get_aim G P self optimal err) = aim_of minimization optimal err.
+Proof. exact code_get_aim. Qed.
+Print Assumptions C03_code_get_aim.
+
+Theorem C03_code_terminate : forall (G P : Type) (self : EvolutionaryAlgorithm G P) (st : state G P),
+  ea_aim G P self <> NegInf -> tf_fitness G P (ea_thefittest G P self) <> PosInf ->
+  best st = abs_best G P (ea_thefittest G P self) ->
+  Z.of_nat (counter st) = tf_no_update_counter G P (ea_thefittest G P self) ->
+  (forall n, ea_no_increase_num G P self = Some n -> (0 <= n)%Z) ->
+  py_EvolutionaryAlgorithm__termitation_check G P self
+  = terminate G P (abs_aim (ea_aim G P self)) (abs_nin (ea_no_increase_num G P self)) st.
+Proof. exact code_terminate. Qed.
+Print Assumptions C03_code_terminate.
+
+Theorem C03_code_remains : forall (G P : Type) (self : EvolutionaryAlgorithm G P),
+  py_EvolutionaryAlgorithm_get_remains_calls G P self
+  = (ea_iters G P self * ea_pop_size G P self - ea_calls G P self)%Z.
+Proof. exact code_remains. Qed.
+Print Assumptions C03_code_remains.
+
+Theorem C03_code_init : forall (G P : Type) (dG : G) (dP : P) iters pop_size minimization optimal err nin,
+  let self := py_EvolutionaryAlgorithm_init G P dG dP iters pop_size minimization optimal err nin in
+  abs_best G P (ea_thefittest G P self) = None /\ tf_no_update_counter G P (ea_thefittest G P self) = 0%Z /\
+  ea_calls G P self = 0%Z /\ abs_aim (ea_aim G P self) = aim_of minimization optimal err /\ ea_aim G P self <> NegInf.
+Proof. exact code_init. Qed.
+Print Assumptions C03_code_init.
